@@ -92,12 +92,29 @@ class Universe:
         self.by_text[text] = name
         self.term[name] = term
         self.text[name] = text
-        try:
-            self.bytes_of[base64.b64decode(text)] = name
-        except Exception:
-            pass
+        for raw in self.decodings(text):
+            self.bytes_of[raw] = name
         self.rx = None
         return name
+
+    @staticmethod
+    def decodings(text):
+        """the byte strings a part can stand for: its base64 decoding the way the handler decodes (non-validating),
+        and — Fernet tokens are base64 inside base64 — the decoding of that"""
+        out = []
+        try:
+            raw = base64.b64decode(text)
+        except Exception:
+            return out
+        if raw:
+            out.append(raw)
+            try:
+                inner = base64.urlsafe_b64decode(raw)
+                if len(inner) > 40 and inner[:1] == b"\x80":
+                    out.append(inner)
+            except Exception:
+                pass
+        return out
 
     def add_iv(self, text):
         self.ivs[text] = base64.b64decode(text)
@@ -122,7 +139,7 @@ class Universe:
         if not toks:
             return "(@nil sym)", set()
         used = {n for k, n in toks if k == "b"}
-        return "(" + " ++ ".join("chs %s" % coq_str(x) if k == "t" else "[Bl %s]" % x for k, x in toks) + ")", used
+        return "(" + " ++ ".join("chs %s" % coq_str(x) if k == "t" else "[Bl %s]" % x for k, x in toks) + ")%list", used
 
     def lenient(self, s):
         """some '|'-part is not an issued blob text / iv text itself but base64-decodes (the way the code decodes)
@@ -130,12 +147,9 @@ class Universe:
         for p in s.split(BAR):
             if p in self.by_text or p in self.ivs:
                 continue
-            try:
-                raw = base64.b64decode(p)
-            except Exception:
-                continue
-            if raw and (raw in self.bytes_of or raw in self.ivs.values()):
-                return True
+            for raw in self.decodings(p):
+                if raw in self.bytes_of or raw in self.ivs.values():
+                    return True
         return False
 
 
@@ -539,6 +553,8 @@ def run(ctx):
     import logging
     logging.getLogger("idpyoidc").setLevel(logging.CRITICAL)
     import srv
+    import time
+    t0 = time.time()
     rng = ctx.rng
     U = Universe()
     modes = [Mode("S", 1, None, None), Mode("SE", 2, 3, None), Mode("E", None, 4, None), Mode("C", None, None, 5)]
@@ -621,6 +637,7 @@ def run(ctx):
                         do_parse(ctx, U, mode, BAR.join(q), "genuine-part%d<-attacker%d" % (j, k), parse_cases, seen, base=gen[0][3])
         for s in ["", BAR, "||", "|||", "||||", "17", "17|x", "17|a::b|", "17|a::b|AAAA", "a|b|c|d", "a|b|c|d|e"]:
             do_parse(ctx, U, mode, s, "malformed", parse_cases, seen)
+    t1 = time.time()
     # ---- model
     mk = eval_shards(ctx, "make", "make_case", make_cases, ["chk_make"], U)
     for name, j, case in mk["chk_make"][:20]:
@@ -638,6 +655,7 @@ def run(ctx):
     for _, rec in rs:
         ctx.case_seen(rec, True)
     ctx.coq_check_cases(IMPORTS, "pystr * option (pystr * pystr)", "chk_rsplit", rs, shard=400, label="rsplit")
+    ctx.notes.append("driver phases: implementation+oracle %.1fs, model evaluation %.1fs" % (t1 - t0, time.time() - t1))
 
 
 def replay(ctx, rp):
